@@ -26,6 +26,7 @@ type vGenSess struct {
 	fl       []string // the in-flight datagrams as printed by the implementation ("src>dst:…"), for directed scenarios
 	blkA     int      // ip id rejected by A's remote IP filter (0 = no filter)
 	seq      int      // running number of the directed scenario of this kind (cycles through its variants)
+	floods   *int     // floods left in this run (shared by all sessions: a flood and its drain are ~150-1000 lines)
 }
 
 // pickForms decides whether the session uses non-canonical literals (IPv4-mapped / expanded IPv6) for a
@@ -98,6 +99,76 @@ func (g *vGenSess) remTail(tt string) string {
 	}
 	g.o.stat("addremote.tt." + tt)
 	return fmt.Sprintf(" %d %s", f, tt)
+}
+
+// wantFlood: does this session get a receive-buffer overflow phase?  A minority of focus=C07 sessions, rarely
+// elsewhere, never for C01; bounded per run.
+func (g *vGenSess) wantFlood() bool {
+	if g.floods == nil || *g.floods <= 0 || g.focus == "C01" {
+		return false
+	}
+	den := 15
+	if g.focus == "C07" {
+		den = 3
+	}
+	if !g.r.chance(1, den) {
+		return false
+	}
+	*g.floods--
+	g.o.stat("phase.flood")
+	return true
+}
+
+// drain: reads until the reader answers `empty` (or an error), at most max reads
+func (g *vGenSess) drain(w string, max int) {
+	for i := 0; i < max; i++ {
+		res := g.op("read %s", w)
+		if !strings.HasPrefix(res, "res=read:") && !strings.HasPrefix(res, "res=short:") {
+			return
+		}
+	}
+}
+
+// floodPhase: a stalled reader.  Payload datagrams from `src` (a known remote candidate's address, if the session
+// got that far) are handed to w's local candidate `la` without reading, sized just below / at / above what the 1 MB
+// receive buffer takes (each queued datagram costs len+2 bytes), in one go or in two parts with reads in between;
+// then the reader drains the queue (mostly completely).
+func (g *vGenSess) floodPhase(w string, la, src int) {
+	r := g.r
+	g.drain(w, 40) // start from an empty queue (mostly)
+	l := []int{8190, 8190, 4000, 4000, 1000}[r.intn(5)]
+	fit := 1000000 / (l + 2)
+	n := fit + []int{-1, 0, 1, 1, 7, 100}[r.intn(6)]
+	switch r.intn(3) {
+	case 0: // in one go
+		g.op("flood %s %d %d %d %d", w, la, src, l, n)
+	case 1: // two parts, some reads in between: the freed room is taken again
+		k := 1 + r.intn(n-1)
+		g.op("flood %s %d %d %d %d", w, la, src, l, k)
+		for i := 0; i < r.intn(6); i++ {
+			g.readOp(w)
+		}
+		g.op("flood %s %d %d %d %d", w, la, src, l, n-k)
+	default: // up to the brim, then single payloads of sizes around the room that is left
+		g.op("flood %s %d %d %d %d", w, la, src, l, fit)
+		room := 1000000 - fit*(l+2) - 2
+		for _, d := range []int{room + 1, room, 0, 1} {
+			if d >= 0 {
+				g.op("data %s %d %d %d 0", w, la, src, d)
+			}
+		}
+	}
+	if r.chance(1, 4) {
+		g.op("adv %d", []int{50, 1000}[r.intn(2)])
+	}
+	if r.chance(5, 6) {
+		g.drain(w, fit+20)
+	} else {
+		g.drain(w, r.intn(fit)) // a partial drain: the session goes on with a half-full buffer
+		g.op("data %s %d %d %d 0", w, la, src, l)
+	}
+	g.op("data %s %d %d %d 0", w, la, src, 1+r.intn(200))
+	g.readOp(w)
 }
 
 func (g *vGenSess) sawLen(n int) {
@@ -224,10 +295,14 @@ func vAgentGen(o *vOut, r *vRand, thorough bool, args []string, emit func(string
 		}
 	}
 	t0 := time.Now()
+	floods := 6 // per run: a flood and its drain are ~150-1000 lines
+	if thorough {
+		floods = 120
+	}
 	nSupersede := r.intn(24)
 	nRenomDir := r.intn(18)
 	for i := 0; i < n && time.Since(t0) < budget; i++ {
-		g := &vGenSess{r: r.fork(), emit: emit, o: o, focus: focus}
+		g := &vGenSess{r: r.fork(), emit: emit, o: o, focus: focus, floods: &floods}
 		singles := 3 // out of 10
 		switch focus {
 		case "C01":
@@ -479,6 +554,14 @@ func (g *vGenSess) double() {
 				g.op("deliver 0")
 				g.inflight--
 			}
+		}
+	}
+	// a stalled reader on B (or A): more payload than the receive buffer takes
+	if g.wantFlood() {
+		if r.chance(2, 3) {
+			g.floodPhase("B", lb[0].addr, la[0].addr)
+		} else {
+			g.floodPhase("A", la[0].addr, lb[0].addr)
 		}
 	}
 	// renomination phase: values in increasing, decreasing and repeated order, arbitrary delivery order
@@ -861,6 +944,9 @@ func (g *vGenSess) single() {
 			g.inject(addrA, 16*(11+r.intn(nrem)), net0)
 		default:
 			g.randomAction(&gen, addrA, 16*(11+r.intn(nrem)), net0)
+		}
+		if k == n/2 && g.wantFlood() {
+			g.floodPhase("A", addrA, tbase+16*11)
 		}
 	}
 }
